@@ -126,6 +126,7 @@ def run(tier="quick", seed=0, replay=None):
         print(open(replay).read())
         return 1
     core.lean_stage(chk, "C15")
+    core.soft_bridge(chk)
     from harness import cover
     from harness import fingerprint
     fingerprint.direct(chk, ['ixai/explainer/pfi.py', 'ixai/explainer/sage/incremental.py', 'ixai/explainer/base.py', 'ixai/explainer/sage/batch.py', 'ixai/explainer/sage/interval.py'])
